@@ -17,6 +17,7 @@ Verdict(r) ==
        (IF r.decoded = r.want THEN "ok" ELSE "the escape does not decode to its code point")
   ELSE IF \E i \in 1..Len(r.pfull) : r.pfull[i] # r.tree THEN "the fully parenthesised rendering does not parse back to the tree"
   ELSE IF \E i \in 1..Len(r.pmin) : r.pmin[i] # r.tree THEN "the minimally parenthesised rendering does not parse back to the tree"
+  ELSE IF "pwrapmin" \in DOMAIN r /\ \E i \in 1..Len(r.pwrapmin) : r.pwrapmin[i] # r.tree THEN "redundant parentheses around a minimally rendered operand change the tree"
   ELSE IF "psoft" \in DOMAIN r /\ \E i \in 1..Len(r.psoft) : r.psoft[i] # r.tree THEN "a comment directly after a declared name or a type name changes the tree"
   ELSE IF "pnopar" \in DOMAIN r /\ \E i \in 1..Len(r.pnopar) : r.pnopar[i] = r.tree THEN "removing a needed pair of parentheses still gives the same tree"
   ELSE "ok"
